@@ -242,6 +242,9 @@ def compress_mode_swaps(circuit_spec: list) -> list:
         if isinstance(spec, ModeSwaps):
             blocked_modes = set()
             for j, spec2 in enumerate(circuit_spec[i + 1 :]):
+                # Ignore any swaps which were already combined elsewhere
+                if i + 1 + j in to_skip:
+                    continue
                 # Block modes with components other than the mode swap on
                 if isinstance(spec2, PhaseShifter | Loss):
                     # NOTE: In principle a phase shift doesn't need to
